@@ -77,11 +77,17 @@ LevelsOf(sh) == Configurable(sh)
 \* JSON text of the marker value of key k at level L in value style vi:
 \*   1 plain, 2 the other polarity / YAML-significant text, 0 explicit null
 Q(s) == "\"" \o s \o "\""
+\* log-level values stay valid zerolog level names (a loader may validate them), distinct per level
+LogName(L, vi) ==
+  LET i == CHOOSE j \in 1..7 : Order[j] = L
+      names == <<"debug", "info", "warn", "error", "trace", "fatal", "panic">>
+  IN names[IF vi = 1 THEN i ELSE ((i + 2) % 7) + 1]
 Val(k, L, vi) ==
   IF vi = 0 THEN "null"
   ELSE IF k \in BoolKeys THEN (IF (vi = 1) = Odd(L) THEN "true" ELSE "false")
   ELSE IF k \in StrKeys THEN
-       (IF vi = 1 THEN Q(k \o "@" \o L)
+       (IF k = "log-level" THEN Q(LogName(L, vi))
+        ELSE IF vi = 1 THEN Q(k \o "@" \o L)
         ELSE IF k = "mockname" THEN Q("{{.InterfaceNameCamel}}: " \o L \o " #x")
         ELSE Q(" " \o k \o ": {" \o L \o "} #x *&!|>'%@`, [y] "))
   ELSE IF k \in ListKeys THEN
